@@ -197,6 +197,8 @@ struct Inbox {
     kinds: Vec<String>,
     /// challenge the node sent and expects a digest for (ServerChallenge.challenge / ClientChallenge.challenge)
     challenge: Option<u32>,
+    /// digest the node put into its last ClientChallenge (its answer to the challenge we gave it)
+    digest: Option<Vec<u8>>,
     closed: bool,
 }
 
@@ -318,7 +320,10 @@ async fn adversary(sc: Script, pids: Arc<Mutex<(u64, u64)>>) {
                             use ractor_cluster::verif::auth_proto::authentication_message::Msg;
                             match &a.msg {
                                 Some(Msg::ServerChallenge(c)) => g.challenge = Some(c.challenge),
-                                Some(Msg::ClientChallenge(c)) => g.challenge = Some(c.challenge),
+                                Some(Msg::ClientChallenge(c)) => {
+                                    g.challenge = Some(c.challenge);
+                                    g.digest = Some(c.digest.clone());
+                                }
                                 _ => {}
                             }
                         }
@@ -341,6 +346,9 @@ async fn adversary(sc: Script, pids: Arc<Mutex<(u64, u64)>>) {
     for (si, s) in &sc.steps {
         let si = *si;
         let digesty = s.c == "auth" && (s.k == "CCh" || s.k == "SAck");
+        if s.p == "reflect" || s.p == "reflected" {
+            barrier().await;
+        }
         if sc.pipelined && (digesty || s.c == "x") && dirty[si] {
             barrier().await;
             observe(&w, si).await;
@@ -349,14 +357,26 @@ async fn adversary(sc: Script, pids: Arc<Mutex<(u64, u64)>>) {
         // what is actually sent decides the label: a digest made without the cookie is a bad one
         let good = s.p == "good" && sc.knows;
         let mut label = s.clone();
-        if digesty && !good {
+        if digesty && !good && s.p != "reflected" {
             label.p = "bad";
         }
         let mut n = 0u32;
         let bytes: Vec<u8> = match s.c {
             "auth" => {
                 let pending = w.inbox[si].lock().unwrap().challenge;
-                let m = if digesty && s.p == "good" && !sc.knows {
+                let other = (0..sc.roles.len()).find(|j| *j != si);
+                let m = if s.p == "reflect" {
+                    // hand the node (as client) the challenge its own server-side session is waiting on
+                    use ractor_cluster::verif::auth_proto as ap;
+                    let x = other.and_then(|j| w.inbox[j].lock().unwrap().challenge).unwrap_or(1);
+                    ap::AuthenticationMessage { msg: Some(ap::authentication_message::Msg::ServerChallenge(ap::Challenge {
+                        name: peer(si), flags: flags(), challenge: x, connection_string: format!("{}:1", peer(si)) })) }
+                } else if s.p == "reflected" {
+                    // relay the digest the node computed on the other session
+                    use ractor_cluster::verif::auth_proto as ap;
+                    let d = other.and_then(|j| w.inbox[j].lock().unwrap().digest.clone()).unwrap_or_default();
+                    ap::AuthenticationMessage { msg: Some(ap::authentication_message::Msg::ClientChallenge(ap::ChallengeReply { challenge: 5, digest: d })) }
+                } else if digesty && s.p == "good" && !sc.knows {
                     // the adversary does its honest best with the cookie it has
                     let mut m = auth_message(s, &peer(si), pending, true, 0);
                     use ractor_cluster::verif::auth_proto::authentication_message::Msg;
@@ -624,6 +644,30 @@ pub fn scripts_wire(tier: &str, seed: u64) -> Vec<Script> {
     v
 }
 
+/// Named deviation DigestReflection: a peer without the cookie that is both dialled by the node (client-side
+/// session) and connected to it (server-side session) relays the node's own digest.
+pub fn scripts_reflect() -> Vec<Script> {
+    let name = sym("auth", "Name", "");
+    let ss_ok = sym("auth", "SS", "Ok");
+    let refl = sym("auth", "SCh", "reflect");
+    let relay = sym("auth", "CCh", "reflected");
+    let after = vec![(0, sym("node", "Cast", "adv")), (0, sym("ctl", "Spawn", "")), (0, sym("node", "Call", "adv")), (1, sym("ctl", "Ping", ""))];
+    let mut v = vec![];
+    // the attack, and orders in which it cannot work (digest signed before the challenge existed; nothing signed)
+    for order in [
+        vec![(0, name.clone()), (1, ss_ok.clone()), (1, refl.clone()), (0, relay.clone())],
+        vec![(1, ss_ok.clone()), (0, name.clone()), (1, refl.clone()), (0, relay.clone())],
+        vec![(1, ss_ok.clone()), (1, refl.clone()), (0, name.clone()), (0, relay.clone())],
+        vec![(0, name.clone()), (1, ss_ok.clone()), (0, relay.clone())],
+        vec![(0, name.clone()), (1, refl.clone()), (0, relay.clone())],
+    ] {
+        let mut steps = order;
+        steps.extend(after.clone());
+        v.push(Script { roles: vec![true, false], knows: false, pipelined: false, steps });
+    }
+    v
+}
+
 pub fn batch_l2(out: &str, seed: u64, scripts: Vec<Script>, family: &str, per: usize) -> Value {
     let mut b = Batch::new(Some(out));
     let mut nontrivial = std::collections::HashSet::new();
@@ -659,6 +703,7 @@ pub fn dispatch(cmd: &str, a: &std::collections::HashMap<String, String>) -> Opt
     match cmd {
         "auth1" => Some(batch_l1(&out, &tier, seed)),
         "auth2" => Some(batch_l2(&out, seed, scripts_auth2(&tier, seed), "auth2", 1)),
+        "auth-reflect" => Some(batch_l2(&out, seed, scripts_reflect(), "auth-reflect", 2)),
         "wire-sessions" => Some(batch_l2(&out, seed, scripts_wire(&tier, seed), "wire-sessions", if tier == "thorough" { 8 } else { 2 })),
         _ => None,
     }
